@@ -131,6 +131,66 @@ def gen_case(rng, tier):
     return {"cfg": cfg, "ops": ops, "variants": variants}
 
 
+def gtf_feat(rng):
+    g = rng.choice(["G1", "G2"])
+    t = rng.choice(["T1", "T2", "T3"])
+    ft = rng.choice(["exon", "exon", "CDS", "transcript", "gene", "start_codon"])
+    s_, e_ = G.rand_span(rng, [1, 5, 10, 20, 30])
+    cols = ["chr1", rng.choice(["src", "src", "alt"]), ft, s_, e_, ".", rng.choice(["+", "+", "-"]), "."]
+    attrs = [["gene_id", [g]]]
+    if ft != "gene":
+        attrs.append(["transcript_id", [t]])
+    if rng.random() < 0.4:
+        attrs.append(["tag", rng.sample(["x", "y", "z"], rng.choice([1, 2]))])
+    return G.mf(cols, attrs)
+
+
+def gen_gtf_case(rng, tier):
+    """The same alphabet of operations on a GTF database (explicit gene/transcript lines collide on their ids;
+    everything else gets auto-generated keys)."""
+    cfg = {"fmf": rng.sample(["source", "strand"], 1) if rng.random() < 0.3 else [], "keep_order": rng.random() < 0.5, "fmt": "gtf"}
+    base = []
+    seen = set()
+    for _ in range(rng.randint(1, 6)):
+        f = gtf_feat(rng)
+        key = (f["cols"][2], tuple(map(tuple, [(k, tuple(v)) for k, v in f["attrs"][:2]]))) if f["cols"][2] in ("gene", "transcript") else None
+        if key and key in seen:
+            continue
+        seen.add(key)
+        base.append(f)
+    ops = [{"op": "create", "feats": base, "form": rng.choice(["path", "list", "string"]), "kw": {"merge_strategy": "create_unique"}}]
+    idpool = ["G1", "G2", "T1", "T2", "T3", "exon_1", "exon_2", "CDS_1", "zz"]
+    for _ in range(rng.randint(2, 8)):
+        k = rng.choices(["update", "delete", "add_relation", "reopen", "restart", "gc"], [6, 2, 1.5, 1.5, 1, 0.5])[0]
+        if k == "update":
+            strat = rng.choice(STRATS)
+            kw = {"merge_strategy": strat, "checklines": rng.choice([0, 0, 1, 2, 10])}
+            if rng.random() < 0.35:
+                kw["make_backup"] = False
+            if strat == "merge" and cfg["fmf"]:
+                kw["force_merge_fields"] = list(cfg["fmf"])
+            ops.append({"op": "update", "feats": [gtf_feat(rng) for _ in range(rng.choice([0, 1, 2, 2, 3, 4]))], "form": rng.choice(FORMS), "kw": kw})
+        elif k == "delete":
+            ids = rng.sample(idpool, rng.choice([1, 1, 2]))
+            ops.append({"op": "delete", "ids": ids, "form": rng.choice(["strs", "features", "gen"]), "kw": {"make_backup": rng.random() < 0.6}})
+        elif k == "add_relation":
+            p, c = rng.sample(idpool[:8], 2)
+            ops.append({"op": "add_relation", "parent": p, "child": c, "level": rng.choice([1, 2]), "child_func": None, "as_feature": rng.random() < 0.3})
+        else:
+            ops.append({"op": k})
+    variants = []
+    upd = [j for j, o in enumerate(ops) if o["op"] == "update" and o["feats"]]
+    for j in (upd if tier == "thorough" else rng.sample(upd, min(len(upd), 2))):
+        f = rng.choice(["gen", "iter1", "path"])
+        for k in range(len(ops[j]["feats"]) + 1):
+            variants.append({"at_op": j, "fault": {"src": k, "form": f}})
+    wr = [j for j, o in enumerate(ops) if o["op"] in ("update", "delete", "add_relation") and j > 0]
+    for _ in range(3):
+        if wr:
+            variants.append({"at_op": rng.choice(wr), "fault": {"frac": rng.random(), "mode": rng.choice(["error", "crash", "cancel"])}})
+    return {"cfg": cfg, "ops": ops, "variants": variants}
+
+
 def gen_spill_case(rng):
     """A long update through a handle opened with a tiny page cache, killed before its first commit: sqlite has
     already written pages of the unfinished transaction into the database file (cache spill), so what a fresh
@@ -151,6 +211,8 @@ def gen_spill_case(rng):
 def gen(rng, tier):
     if rng.random() < (0.012 if tier == "quick" else 0.02):
         return gen_spill_case(rng)
+    if rng.random() < 0.2:
+        return gen_gtf_case(rng, tier)
     return gen_case(rng, tier)
 
 
@@ -169,7 +231,7 @@ class Hist(object):
         self.cfg = case["cfg"]
         self.w = World("c10_")
         self.node = None
-        self.model = Model("gff3")
+        self.model = Model(self.cfg.get("fmt", "gff3"))
         self.viol = []
         self.strict = True  # exact auto-key numbers until the first failed op
         self.journal = []
@@ -202,12 +264,19 @@ class Hist(object):
             self.v("C10.reopen", "database cannot be opened: %s %s" % (r["exc"], r["msg"]), kind="open_failed")
             raise Stop()
 
+    def dialect(self):
+        return G.DEFAULT_GTF if self.cfg.get("fmt") == "gtf" else G.DEFAULT_GFF3
+
+    def fmt_kw(self):
+        # GTF histories run with inference disabled in every call (C03 judges inference)
+        return {"disable_infer_genes": True, "disable_infer_transcripts": True} if self.cfg.get("fmt") == "gtf" else {}
+
     def data_spec(self, op, src=None):
         form = op["form"]
         fault = op.get("fault") or {}
         if "src" in fault:
             form = fault.get("form", form)
-        spec = G.source_spec(None, op["feats"], form=form)
+        spec = G.source_spec(None, op["feats"], form=form, d=self.dialect())
         if "src" in fault:
             spec["fail_at"] = fault["src"]
         return spec
@@ -323,14 +392,20 @@ class Hist(object):
             raise Stop()
         self.probes["backup_checked"] = self.probes.get("backup_checked", 0) + 1
 
+    def mimport(self, m, feats, strategy="error", fmf=(), upto=None):
+        """arrivals into model m under this history's importer (GFF3, or GTF with inference disabled)"""
+        if self.cfg.get("fmt") == "gtf":
+            m.gtf["dig"] = m.gtf["dit"] = True
+            return m.import_gtf(feats, strategy=strategy, id_spec=None, fmf=fmf, upto=upto, infer=False)
+        return m.import_gff3(feats, strategy=strategy, id_spec=self.cfg.get("id_spec") or "ID", fmf=fmf, upto=upto)
+
     # ---- model side of one write op; returns list of candidate models for a failed op
     def model_apply(self, op, upto=None):
         m = self.model
         k = op["op"]
         if k == "update":
             kw = op["kw"]
-            m.import_gff3(op["feats"], strategy=kw.get("merge_strategy", "error"), id_spec=self.cfg.get("id_spec") or "ID",
-                          fmf=tuple(kw.get("force_merge_fields") or ()), upto=upto)
+            self.mimport(m, op["feats"], kw.get("merge_strategy", "error"), tuple(kw.get("force_merge_fields") or ()), upto)
         elif k == "delete":
             m.delete(op["ids"])
         elif k == "add_relation":
@@ -350,16 +425,14 @@ class Hist(object):
                 m = pre.clone()
                 try:
                     kw = op["kw"]
-                    m.import_gff3(op["feats"], strategy=kw.get("merge_strategy", "error"), id_spec=self.cfg.get("id_spec") or "ID",
-                                  fmf=tuple(kw.get("force_merge_fields") or ()), upto=k)
+                    self.mimport(m, op["feats"], kw.get("merge_strategy", "error"), tuple(kw.get("force_merge_fields") or ()), k)
                 except (ModelError, Undefined):
                     break
                 out.append(("prefix%d" % k, m))
             try:
                 m = pre.clone()
                 kw = op["kw"]
-                m.import_gff3(op["feats"], strategy=kw.get("merge_strategy", "error"), id_spec=self.cfg.get("id_spec") or "ID",
-                              fmf=tuple(kw.get("force_merge_fields") or ()))
+                self.mimport(m, op["feats"], kw.get("merge_strategy", "error"), tuple(kw.get("force_merge_fields") or ()))
                 out.append(("post", m))
             except (ModelError, Undefined):
                 pass
@@ -456,16 +529,15 @@ class Hist(object):
         k = op["op"]
         fault = op.get("fault")
         if k == "create":
-            spec = G.source_spec(None, op["feats"], form=op["form"])
+            spec = G.source_spec(None, op["feats"], form=op["form"], d=self.dialect())
             req = {"op": "create", "h": "h", "db": DB, "data": spec, "src": "op%d" % j,
-                   "kw": dict(op["kw"], keep_order=self.cfg.get("keep_order", False))}
+                   "kw": dict(op["kw"], keep_order=self.cfg.get("keep_order", False), **self.fmt_kw())}
             if self.cfg.get("id_spec") is not None:
                 req["id_spec"] = self.cfg["id_spec"]
             r = self.call(req)
             self.points[j] = r["points"]
             try:
-                self.model.import_gff3(op["feats"], strategy=op["kw"].get("merge_strategy", "error"),
-                                       id_spec=self.cfg.get("id_spec") or "ID", fmf=tuple(op["kw"].get("force_merge_fields") or ()))
+                self.mimport(self.model, op["feats"], op["kw"].get("merge_strategy", "error"), tuple(op["kw"].get("force_merge_fields") or ()))
             except ModelError:
                 raise Undefined("base import rejected by the model")
             if not r["ok"]:
@@ -593,7 +665,7 @@ class Hist(object):
     def request(self, j, op):
         k = op["op"]
         if k == "update":
-            kw = dict(op["kw"])
+            kw = dict(op["kw"], **self.fmt_kw())
             req = {"op": "update", "h": "h", "data": self.data_spec(op), "src": "op%d" % j, "kw": kw}
             if self.cfg.get("id_spec") is not None:
                 req["id_spec"] = self.cfg["id_spec"]
@@ -612,9 +684,9 @@ class Hist(object):
             # the commits of one update that is outside what is judged here (see ASSUMPTIONS): only readability
             self.compare("after fault (custom id_spec: no liveness update)", observer=True)
             return
-        f = G.mf(["chr1", "src", "gene", 3, 9, ".", "+", "."], [["ID", ["live1"]]])
+        f = G.mf(["chr1", "src", "gene", 3, 9, ".", "+", "."], [["ID", ["live1"]]] if self.cfg.get("fmt") != "gtf" else [["gene_id", ["live1"]]])
         op = {"op": "update", "feats": [f], "form": "list", "kw": {"merge_strategy": "create_unique", "make_backup": False}}
-        self.model.import_gff3([f], strategy="create_unique", id_spec=self.cfg.get("id_spec") or "ID")
+        self.mimport(self.model, [f], "create_unique")
         r = self.call(self.request(j, op))
         if not r["ok"] and "locked" in r["msg"]:
             # recovery step allowed by the statement's alphabet: close/reopen the handle
@@ -738,6 +810,8 @@ def run(case):
                     continue
                 f = {"at": min(n - 1, int(f["frac"] * n)), "mode": f["mode"]}
             ops2[j]["fault"] = f
+            pk = "variants_source_position" if "src" in f else "variants_seam_point_%s" % f.get("mode", "error")
+            probes[pk] = probes.get(pk, 0) + 1
             if var.get("nogc_probe"):
                 ops2[j]["nogc_probe"] = True
             vcase = {"cfg": case["cfg"], "ops": ops2}
